@@ -274,6 +274,35 @@ func isOperator
   ensures the-arithmetic-comparison-and-word-operators-in-any-letter-case-and-nothing-else: result <==> (strings.EqualFold(s, "+") || strings.EqualFold(s, "-") || strings.EqualFold(s, "*") || strings.EqualFold(s, "/") || strings.EqualFold(s, "%") || strings.EqualFold(s, "^") || strings.EqualFold(s, "=") || strings.EqualFold(s, "==") || strings.EqualFold(s, "!=") || strings.EqualFold(s, "<>") || strings.EqualFold(s, ">") || strings.EqualFold(s, "<") || strings.EqualFold(s, ">=") || strings.EqualFold(s, "<=") || strings.EqualFold(s, "AND") || strings.EqualFold(s, "OR") || strings.EqualFold(s, "NOT") || strings.EqualFold(s, "LIKE") || strings.EqualFold(s, "IS"))
   loop 1 invariant forall(j, 0, $i, !strings.EqualFold(s, $s[j])) && len($s) == 19 && $s[0] == "+" && $s[1] == "-" && $s[2] == "*" && $s[3] == "/" && $s[4] == "%" && $s[5] == "^" && $s[6] == "=" && $s[7] == "==" && $s[8] == "!=" && $s[9] == "<>" && $s[10] == ">" && $s[11] == "<" && $s[12] == ">=" && $s[13] == "<=" && $s[14] == "AND" && $s[15] == "OR" && $s[16] == "NOT" && $s[17] == "LIKE" && $s[18] == "IS"
 
+// a column's own value: backticks dropped, a path read by the shared path reader, a plain name from the row itself,
+// the value as it is; a missing column is an error
+func evaluateFieldValue
+  props C06 C05 C13
+  option assumed_frame
+  requires node != nil
+  observe nested := IsNestedField
+  observe pv := GetNestedField
+  observe pfound := GetNestedField#1
+  before IsNestedField the-name-asked-about-is-the-columns-name-without-backticks: $arg0 == ite(len(node.Value) >= 2 && node.Value[0] == 96 && node.Value[len(node.Value) - 1] == 96, node.Value[1:len(node.Value) - 1], node.Value)
+  before GetNestedField a-path-is-read-from-this-row: $arg0 == boxof(data, map[string]any) && $arg1 == fieldName
+  atreturn the-columns-own-value-as-it-is: result1 == nil ==> result0 == ite($nested, $pv, data[fieldName]) && ($nested ==> $pfound) && (!$nested ==> dom(data, fieldName))
+  atreturn a-missing-column-is-an-error: (($nested && !$pfound) || (!$nested && !dom(data, fieldName))) ==> result1 != nil && result0 == nil
+
+// a CASE expression is evaluated as the kind it is: with an operand by the simple evaluator, without one by the searched
+// one; anything else is an error
+func evaluateCaseExpression
+  props C06 C13
+  option assumed_frame
+  requires node != nil
+  observe sv := evaluateSimpleCaseExpression
+  observe serr := evaluateSimpleCaseExpression#1
+  observe wv := evaluateSearchCaseExpression
+  observe werr := evaluateSearchCaseExpression#1
+  before evaluateSimpleCaseExpression this-node-on-this-row: $arg0 == node && $arg1 == data
+  before evaluateSearchCaseExpression this-node-on-this-row: $arg0 == node && $arg1 == data
+  atreturn a-case-with-an-operand-is-a-simple-case-one-without-a-searched-case: node.Type == TypeCase && node.CaseExpr != nil ==> ite(node.CaseExpr.Value != nil, result0 == $sv && result1 == $serr, result0 == $wv && result1 == $werr)
+  atreturn what-is-no-case-expression-is-an-error: node.Type != TypeCase || node.CaseExpr == nil ==> result1 != nil && result0 == 0.0
+
 // a column in a numeric expression: backticks dropped, a path read by the shared path reader and a plain name from the
 // row itself; the value must convert to a number that is not NaN, and a missing column is an error, never a silent zero
 func evaluateFieldNode
